@@ -151,6 +151,217 @@ class MemBackend(TrialBackend):
         pass
 
 
+WORKER_SRC = r"""
+import json, os, sys, time
+args = dict(zip(sys.argv[1::2], sys.argv[2::2]))
+ctl = args["--ctl"]
+ack = ctl + ".ack"
+pos = int(open(ack).read() or 0) if os.path.exists(ack) else 0
+while True:
+    with open(ctl) as f:
+        cmds = f.read().split("\n")[:-1]        # complete lines only
+    if len(cmds) <= pos:
+        time.sleep(0.001)
+        continue
+    c = cmds[pos]
+    pos += 1
+    if c.startswith("emit "):
+        sys.stdout.write("[tune-metric]: " + c[5:] + "\n")
+        sys.stdout.flush()
+    if c.startswith("noise "):
+        sys.stdout.write(c[6:])                   # other output of the script, no line end
+        sys.stdout.flush()
+    with open(ack + ".tmp", "w") as f:
+        f.write(str(pos))
+    os.replace(ack + ".tmp", ack)
+    if c.startswith("exit "):
+        sys.exit(int(c[5:]))
+"""
+
+
+def _real_local_class():
+    from syne_tune.backend.local_backend import LocalBackend
+
+    class RealLocal(LocalBackend):
+        """the REAL `LocalBackend` (files, marker files, real sub-processes) behind the worker interface of `MemBackend`:
+        every trial run is a real process of `WORKER_SRC` which writes a report line to its stdout / exits when the
+        harness tells it to (command file + acknowledgement file).  `env` / `emitted` are the harness's own record of
+        what the workers were told to write; everything the checks read about the backend comes from the real code.
+        `between = [trial, n, ok]`: inside the next poll, between the two reads `_all_trial_results` makes for that
+        trial (process status, log), the worker writes n reports and exits."""
+
+        def __init__(self, delete_checkpoints, root):
+            self.root = root
+            script = os.path.join(root, "worker.py")
+            with open(script, "w") as f:
+                f.write(WORKER_SRC)
+            super().__init__(entry_point=script, delete_checkpoints=delete_checkpoints, rotate_gpus=False)
+            self.set_path(results_root=os.path.join(root, "exp"), tuner_name="t")
+            self._path_locked = True        # (the Tuner's constructor calls set_path with its own experiment folder)
+            self.env = {}
+            self.delayed_stop = False
+            self.clock = 0
+            self.emitted = []
+            self.sent = {}
+            self.between = None
+            self.mid_exit = None
+            self._reads = {}
+
+        def set_path(self, results_root=None, tuner_name=None):
+            if not getattr(self, "_path_locked", False):
+                super().set_path(results_root=results_root, tuner_name=tuner_name)
+
+        # ---- worker side
+        def _ctl(self, t):
+            return os.path.join(self.root, "ctl_%d" % t)
+
+        def _send(self, t, cmd, wait_exit=False):
+            import time
+            self.sent[t] = self.sent.get(t, 0) + 1
+            with open(self._ctl(t), "a") as f:
+                f.write(cmd + "\n")
+            ack = self._ctl(t) + ".ack"
+            deadline = time.time() + 20
+            while True:
+                try:
+                    if int(open(ack).read() or 0) >= self.sent[t]:
+                        break
+                except (FileNotFoundError, ValueError):
+                    pass
+                if time.time() > deadline:
+                    raise RuntimeError("worker of trial %d does not acknowledge %r" % (t, cmd))
+                time.sleep(0.0005)
+            if wait_exit:
+                self.trial_subprocess[t].wait(timeout=20)
+
+        def _phys_emit(self, t, n):
+            import json
+            e = self.env[t]
+            for _ in range(n):
+                rec = {"run": e["run"], "idx": e["nrep"], ST_WORKER_TIMESTAMP: self.clock}
+                if self.clock % 3 == 1:
+                    self._send(t, "noise " + ["epoch 3: 50%", "loss {", "}\r"][self.clock % 9 // 3])
+                self._send(t, "emit " + json.dumps(rec))
+                e["out"].append(rec)
+                self.emitted.append((t, e["run"], e["nrep"]))
+                e["nrep"] += 1
+                self.clock += 1
+
+        def w_emit(self, t, n):
+            e = self.env.get(t)
+            if e is not None and e["proc"] == "running":
+                self._phys_emit(t, n)
+            else:
+                self.clock += n
+
+        def w_exit(self, t, ok):
+            e = self.env.get(t)
+            if e is not None and e["proc"] == "running":
+                self._send(t, "exit %d" % (0 if ok else 1), wait_exit=True)
+                e["proc"] = "exited-ok" if ok else "exited-fail"
+
+        def w_ckpt(self, t):
+            if t in self.env:
+                d = self.checkpoint_trial_path(t)
+                os.makedirs(d, exist_ok=True)
+                with open(os.path.join(d, "ckpt"), "w") as f:
+                    f.write("x")
+
+        @property
+        def ckpt(self):
+            return set(t for t in self.env if os.path.isdir(self.checkpoint_trial_path(t)))
+
+        @property
+        def cand(self):
+            return set(self._busy_trial_id_candidates)
+
+        def _status(self, t):
+            st = LocalBackend._read_status(self, t)
+            me = getattr(self, "mid_exit", None)
+            if me is not None and me[0] == t and self.env[t]["proc"] == "running" and st in (Status.completed, Status.failed):
+                # the worker left in the middle of the poll just made; in the history handed to the model its exit is the
+                # NEXT operation, and this status is part of the snapshot taken before it
+                return Status.in_progress
+            return st
+
+        # ---- the two reads of a poll, with the scripted step of the worker in between
+        def _mid(self, t, which):
+            r = self._reads.setdefault(t, set())
+            r.add(which)
+            b = self.between
+            if b is not None and b[0] == t and len(r) == 1:
+                self.between = None
+                self.mid_fired = True
+                e = self.env[t]
+                if e["proc"] == "running":
+                    self._phys_emit(t, b[1])
+                    self._send(t, "exit %d" % (0 if b[2] else 1), wait_exit=True)
+                    self.mid_exit = (t, b[2])      # the record `proc` changes when the harness replays the exit op
+
+        def _read_status(self, trial_id):
+            st = super()._read_status(trial_id)
+            if self._in_poll:
+                self._mid(trial_id, "status")
+            return st
+
+        def stdout(self, trial_id):
+            out = super().stdout(trial_id)
+            if self._in_poll:
+                self._mid(trial_id, "log")
+            return out
+
+        _in_poll = False
+
+        def _all_trial_results(self, trial_ids):
+            self._in_poll, self._reads = True, {}
+            try:
+                return super()._all_trial_results(trial_ids)
+            finally:
+                self._in_poll = False
+
+        # ---- record keeping around the real methods
+        def _schedule(self, trial_id, config):
+            if trial_id not in self.env:
+                open(self._ctl(trial_id), "a").close()
+            super()._schedule(trial_id, dict(config, ctl=self._ctl(trial_id)))
+            if trial_id not in self.env:
+                self.env[trial_id] = {"out": [], "run": 0, "nrep": 0, "proc": "running"}
+            else:
+                e = self.env[trial_id]
+                e["proc"] = "running"
+                e["run"] += 1
+                e["nrep"] = 0
+
+        def _killed(self, trial_id):
+            try:
+                self.trial_subprocess[trial_id].wait(timeout=20)
+            except Exception:  # noqa
+                pass
+            e = self.env[trial_id]
+            if e["proc"] == "running":
+                e["proc"] = "killed"
+
+        def _pause_trial(self, trial_id, result):
+            super()._pause_trial(trial_id, result)
+            self._killed(trial_id)
+
+        def _stop_trial(self, trial_id, result):
+            super()._stop_trial(trial_id, result)
+            self._killed(trial_id)
+
+        def close(self):
+            import shutil
+            for pr in self.trial_subprocess.values():
+                try:
+                    pr.kill()
+                    pr.wait(timeout=5)
+                except Exception:  # noqa
+                    pass
+            shutil.rmtree(self.root, ignore_errors=True)
+
+    return RealLocal
+
+
 class ScriptedScheduler(TrialScheduler):
     """answers `on_trial_result` from a script; lets the worker write in between"""
 
@@ -203,8 +414,13 @@ def snapshot(be):
 
 def make(ctor):
     os.environ.setdefault("SYNETUNE_FOLDER", "/nonexistent-syne-tune-verif")
-    be = MemBackend(delete_checkpoints=bool(ctor.get("delete_checkpoints", False)),
-                    delayed_stop=bool(ctor.get("delayed_stop", False)))
+    if ctor.get("local"):
+        import tempfile
+        be = _real_local_class()(delete_checkpoints=bool(ctor.get("delete_checkpoints", False)),
+                                 root=tempfile.mkdtemp(prefix="c02local"))
+    else:
+        be = MemBackend(delete_checkpoints=bool(ctor.get("delete_checkpoints", False)),
+                        delayed_stop=bool(ctor.get("delayed_stop", False)))
     sch = ScriptedScheduler(be)
     tuner = Tuner(trial_backend=be, scheduler=sch, stop_criterion=lambda status: False, n_workers=10 ** 6,
                   tuner_name="c02-poll", suffix_tuner_name=False, save_tuner=False, callbacks=[])
@@ -239,7 +455,7 @@ def apply_op(be, sch, tuner, op):
         elif k == "stop_all":
             be.stop_all()
         elif k == "busy":
-            out["busy"] = [[int(t), s] for t, s in be.busy_trial_ids()]
+            out["busy"] = sorted([int(t), s] for t, s in be.busy_trial_ids())   # (LocalBackend iterates over a set)
         elif k == "loop":
             sch.script = [tuple(x) for x in op["script"]]
             sch.handed = []
@@ -320,6 +536,9 @@ def run_scenario(spec):
         hist[k] = hist.get(k, 0) + n
 
     def do(op):
+        mid = op.pop("mid", None) if isinstance(op, dict) else None
+        if mid is not None:
+            return do_mid(op, mid)
         before_runs = {t: be.env[t]["run"] for t in be.env}
         n_emitted = len(be.emitted)
         out = apply_op(be, sch, tuner, op)
@@ -337,6 +556,56 @@ def run_scenario(spec):
             count("polled-status:" + st)
         return out
 
+    def do_mid(op, mid):
+        """real LocalBackend only: inside the poll of `op` (a loop or fetch), between the two reads the backend makes for
+        trial `mid[0]` (process status and log, in whichever order), the worker writes `mid[1]` reports and exits.  For the
+        order of the unchanged code (status first) that is the history  emit; poll; exit  and it is handed to the model
+        and to the monitor as such (the outputs of the two worker steps are not observable on their own: `None`)."""
+        t, n, ok = mid
+        before_runs = {x: be.env[x]["run"] for x in be.env}
+        n_emitted = len(be.emitted)
+        be.between, be.mid_fired, be.mid_exit = [t, n, ok], False, None
+        out = apply_op(be, sch, tuner, op)
+        fired, be.between = be.mid_fired, None
+        if not fired:       # the trial was not polled (or not running): an ordinary operation
+            lines.append((op, out))
+            events.append({"op": op, "out": {k: v for k, v in out.items() if k in ("delivered", "handed", "status", "done", "err", "trial")},
+                           "runs": {x: be.env[x]["run"] for x in be.env}, "runs_before": before_runs,
+                           "emitted": list(be.emitted[n_emitted:])})
+            count("op:" + op["op"])
+            return out
+        count("mid-poll-exit")
+        count("op:" + op["op"])
+        runs = {x: be.env[x]["run"] for x in be.env}
+        lines.append(({"op": "emit", "trial": t, "n": n}, None))
+        events.append({"op": {"op": "emit", "trial": t, "n": n}, "out": {}, "runs": before_runs, "runs_before": before_runs,
+                       "emitted": list(be.emitted[n_emitted:n_emitted + n])})
+        lines.append((op, out))
+        ev = {"op": op, "out": {k: v for k, v in out.items() if k in ("delivered", "handed", "status", "done", "err", "trial")},
+              "runs": runs, "runs_before": before_runs, "emitted": list(be.emitted[n_emitted + n:])}
+        if "err" in out and "_partial" in out:
+            ev["out"].update({k: v for k, v in out["_partial"].items() if k in ("delivered", "handed", "status")})
+        events.append(ev)
+        for _t, st in out.get("status", []):
+            count("polled-status:" + st)
+        if be.mid_exit is not None:
+            e = be.env[t]
+            if e["proc"] == "running":
+                e["proc"] = "exited-ok" if ok else "exited-fail"
+            be.mid_exit = None
+            xop = {"op": "exit", "trial": t, "ok": ok}
+            lines.append((xop, None))
+            events.append({"op": xop, "out": {}, "runs": runs, "runs_before": runs, "emitted": []})
+        return out
+
+    try:
+        return _run_scenario_body(spec, be, sch, tuner, lines, events, hist, count, do)
+    finally:
+        if hasattr(be, "close"):
+            be.close()
+
+
+def _run_scenario_body(spec, be, sch, tuner, lines, events, hist, count, do):
     if "ops" in spec:
         for op in spec["ops"]:
             out = do(dict(op))
@@ -409,7 +678,16 @@ def run_scenario(spec):
                 dec = "CONTINUE" if r < p.get("p_continue", 0.6) else ("PAUSE" if r < p.get("p_continue", 0.6) + p.get("p_pause", 0.28) else "STOP")
                 n = rng.choice([0, 0, 0, 1, 1, 2, 3]) if rng.random() < p.get("p_window", 0.5) else 0
                 script.append([dec, n])
-            out = do({"op": "loop", "ids": ids, "script": script})
+            lop = {"op": "loop", "ids": ids, "script": script}
+            if spec.get("ctor", {}).get("local") and rng.random() < p.get("p_mid", 0.35):
+                # the worker writes its last report(s) and exits in the middle of this poll; no writes in the window
+                # between the poll and the commands (the process is gone by then)
+                cands = [t for t in ids if be.env[t]["proc"] == "running"
+                         and (t in tuner.last_seen_result_per_trial or len(be.env[t]["out"]) > be._last_metric_seen_index.get(t, 0))]
+                if cands:
+                    lop["mid"] = [rng.choice(cands), rng.choice([1, 1, 2, 3]), rng.random() < 0.8]
+                    lop["script"] = script = [[d, 0] for d, _n in script]
+            out = do(lop)
             unread_emit -= set(ids)
             if "err" in out:
                 break
